@@ -1,17 +1,30 @@
 """C04 - every read path of the store agrees with the set of quads written (DESIGN.md section 7, C04).
 
 Theorems: coq/Store/C04.v (refinement of the four-index model to the abstract quad set, for every history).
-Correspondence: the real DatasetIndex / SparqlDatabase::build_all_indexes against the Gallina model
-(`KV.Store.Run.model_run`) on the same histories; the Spec (`spec_run`) is the oracle for violations.
+Correspondence: the real DatasetIndex / SparqlDatabase::build_all_indexes / QueryBuilder against the Gallina
+model (`KV.Store.Run.model_run`) on the same histories; the Spec (`spec_run`) is the oracle for violations.
+
+Insert/Delete are performed through one of three entry points per case (`via`): "index" (DatasetIndex),
+"db" (SparqlDatabase::add_quad/delete_quad) or "parts" (the string-level SparqlDatabase::add_triple_parts /
+delete_triple_parts for the default graph and add_quad_parts for named graphs; terms are the strings
+"t<i>", pre-encoded in order so that id i <-> "t<i>").  The QueryBuilder observers QB (get_triples),
+QBDec (get_decoded_triples) and QBCount (count) use the same strings; `kinds` picks exact / contains /
+starts-with / ends-with filters, which coincide on the universe t0..t9.
 """
 import itertools
+import os
 import vf
+
+VIAS = ["index", "db", "parts"]
+QB_KINDS = ["eee", "cse", "sne", "nec", "eeed", "ncs", "ssn"]
 
 PROP_RULE = ("cases are histories of store operations (mutators + observers); exhaustive scope: every mutator "
              "history of the stated length over quads {1,2}x{1,2}x{1} in graphs {default,g0,g1} with the full observer "
              "battery after every step; random scope: 40-step histories over 4 terms and 4 graphs. A case is "
              "non-trivial when at least one observer output in it is a non-empty quad/graph list and at least one "
-             "mutator returned true; distinct by the rendered history.")
+             "mutator returned true (or an add_triple_parts insert, which returns nothing, was performed); distinct by "
+             "the entry point (index/db/parts) plus the rendered history. Observers include the QueryBuilder read path "
+             "(get_triples, get_decoded_triples, count; exact/contains/starts/ends filters).")
 
 
 # ---- op encodings -----------------------------------------------------------------------------
@@ -50,6 +63,10 @@ def op_coq(op):
         return "QQuads %s %s %s %s" % (copt(op[1]), copt(op[2]), copt(op[3]), copt(op[4]))
     if t == "GraphsFor":
         return "GraphsFor %d%%N %d%%N %d%%N" % (op[1], op[2], op[3])
+    if t in ("QB", "QBDec"):   # two renderings of the same read path
+        return "QB %s %s %s" % (copt(op[1]), copt(op[2]), copt(op[3]))
+    if t == "QBCount":
+        return "QBCount %s %s %s" % (copt(op[1]), copt(op[2]), copt(op[3]))
     raise ValueError(t)
 
 
@@ -71,6 +88,18 @@ def canon_model(v):
     if tag == 4:
         return {"num": rows[0][0]}
     raise ValueError(v)
+
+
+def via_of(case):
+    return case.get("via") or ("db" if case.get("via_db") else "index")
+
+
+def own_output(case, op, expected):
+    """What the entry point used for `op` lets us observe of the operation's own result:
+    add_triple_parts returns nothing."""
+    if via_of(case) == "parts" and op[0] == "I" and op[4] == 0:
+        return {"unit": True}
+    return expected
 
 
 def spec_agrees(impl, spec):
@@ -98,6 +127,19 @@ def battery(S, P, O, G):
     b.append(["QMerged", [G[1], G[2]], None, None, None])
     b.append(["QMerged", [], None, None, None])
     b.append(["QQuads", None, None, None, G[1]])
+    k = 0
+    for s in opts(S[:1]):
+        for p in opts(P):
+            for o in opts(O):
+                b.append(["QB", s, p, o, QB_KINDS[k % len(QB_KINDS)]])
+                k += 1
+    b.append(["QB", S[-1], None, None, "eee"])
+    b.append(["QBDec", None, None, None, "eee"])
+    b.append(["QBDec", S[0], None, O[0], "nes"])
+    b.append(["QBDec", None, P[-1], None, "ece"])
+    b.append(["QBCount", None, None, None, "eee"])
+    b.append(["QBCount", S[-1], P[0], None, "sc"])
+    b.append(["QBCount", None, None, O[0], "een"])
     for g in G + [G[-1] + 1]:
         b.append(["GExists", g])
         b.append(["LenG", g])
@@ -151,8 +193,11 @@ def random_history(rng, n):
             ops.append([rng.choice(["Create", "Drop", "ClearG"]), rng.choice(G + [4])])
         elif r < 0.52:
             ops.append([rng.choice(["ClearAll", "Rebuild", "Rebuild"])])
-        elif r < 0.70:
+        elif r < 0.64:
             ops.append(["QGraph", rng.choice(G), o(), rng.choice([None, 1, 2]), o()])
+        elif r < 0.70:
+            ops.append([rng.choice(["QB", "QB", "QBDec", "QBCount"]), o(), rng.choice([None, 1, 2]), o(),
+                        rng.choice(QB_KINDS)])
         elif r < 0.78:
             vis = rng.choice([None, [1], [2, 3], [0, 1, 2, 3, 4], []])
             ops.append(["QNamed", o(), rng.choice([None, 1, 2]), o(), vis])
@@ -189,6 +234,9 @@ def evaluate(ctx, binpath, cases, stream):
             continue
         m_run = [[canon_model(x) for x in step] for step in mo[0]]
         s_run = [[canon_model(x) for x in step] for step in mo[1]]
+        for run_ in (m_run, s_run):
+            for step, op in zip(run_, c["ops"]):
+                step[0] = own_output(c, op, step[0])
         if "outs" not in im:
             # a panic or a dead driver is observable behaviour the Spec does not allow
             ctx.violation(c, {"what": "implementation panicked / died on a store history", "impl": im})
@@ -211,7 +259,7 @@ def evaluate(ctx, binpath, cases, stream):
             k, j, x, y = bad
             opseq = c["ops"][:k + 1]
             obs = c["ops"][k] if j == 0 else c["battery"][j - 1]
-            ctx.violation({"ops": opseq, "observer": obs, "via_db": c.get("via_db", False)},
+            ctx.violation({"ops": opseq, "observer": obs, "via": via_of(c)},
                           {"what": "a store read path disagrees with the abstract quad set",
                            "after_history": opseq, "observer": obs, "implementation": x, "spec": y})
             nviol += 1
@@ -219,55 +267,85 @@ def evaluate(ctx, binpath, cases, stream):
             ctx.broken("correspondence", stream, "implementation and model outputs differ but the Spec oracle accepts the implementation",
                        {"ops": c["ops"], "impl": i_run, "model": m_run})
         flat = [x for st in i_run for x in st]
-        if any((x.get("quads") or x.get("graphs")) for x in flat) and any(x.get("bool") for st in i_run for x in st[:1]):
-            ctx.nontrivial(c["ops"])
-    ctx.stream(stream, cases=len(cases), impl_model_mismatches=nmis, spec_violations=nviol)
+        grew = any(x.get("bool") for st in i_run for x in st[:1]) or \
+            any(x.get("unit") and op[0] == "I" for st, op in zip(i_run, c["ops"]) for x in st[:1])
+        if any((x.get("quads") or x.get("graphs")) for x in flat) and grew:
+            ctx.nontrivial([via_of(c)] + c["ops"])
+    allops = [op for c in cases for op in c["ops"] + c["battery"]]
+    ctx.stream(stream, cases=len(cases), impl_model_mismatches=nmis, spec_violations=nviol,
+               via={v: sum(1 for c in cases if via_of(c) == v) for v in VIAS},
+               query_builder_observers=sum(1 for op in allops if op[0] in ("QB", "QBDec", "QBCount")) ,
+               string_level_mutations=sum(1 for c in cases if via_of(c) == "parts" for op in c["ops"]
+                                          if op[0] == "I" or (op[0] == "D" and op[4] == 0)))
+
+
+def driver(ctx):
+    # VERIF_C04_BIN: run against a driver built elsewhere (mutation self-test on a private copy of /repo,
+    # see notes/C04.md); the normal path builds the harness against /repo's working tree.
+    return os.environ.get("VERIF_C04_BIN") or ctx.harness("c04")
 
 
 def run(ctx):
     ctx.coq("Store", "C04.v")
-    binpath = ctx.harness("c04")
+    binpath = driver(ctx)
     S, P, O, G = [1, 2], [1, 2], [1], [0, 1, 2]
     bat = battery(S, P, O, G)
     muts = mutators(S, P, O, G)
     # corpus first
     corpus = [
-        {"ops": [["I", 1, 1, 1, 1], ["D", 1, 1, 1, 1], ["Drop", 1], ["Rebuild"]], "battery": bat, "via_db": True},
-        {"ops": [["Create", 2], ["I", 1, 1, 1, 2], ["I", 1, 1, 1, 1], ["ClearG", 2], ["Rebuild"], ["I", 1, 1, 1, 0], ["Drop", 0]], "battery": bat},
-        {"ops": [["I", 1, 2, 1, 0], ["I", 2, 2, 1, 0], ["D", 1, 2, 1, 0], ["I", 1, 2, 1, 2], ["ClearAll"], ["I", 2, 1, 1, 1]], "battery": bat},
+        {"ops": [["I", 1, 1, 1, 1], ["D", 1, 1, 1, 1], ["Drop", 1], ["Rebuild"]], "battery": bat, "via": "db"},
+        {"ops": [["Create", 2], ["I", 1, 1, 1, 2], ["I", 1, 1, 1, 1], ["ClearG", 2], ["Rebuild"], ["I", 1, 1, 1, 0], ["Drop", 0]], "battery": bat, "via": "index"},
+        {"ops": [["I", 1, 2, 1, 0], ["I", 2, 2, 1, 0], ["D", 1, 2, 1, 0], ["I", 1, 2, 1, 2], ["ClearAll"], ["I", 2, 1, 1, 1]], "battery": bat, "via": "index"},
+        # string-level mutators + QueryBuilder: same triple in the default and a named graph, delete, rebuild
+        {"ops": [["I", 1, 2, 1, 0], ["I", 1, 2, 1, 2], ["I", 2, 2, 1, 0], ["I", 1, 1, 1, 0], ["D", 1, 2, 1, 0], ["Rebuild"],
+                 ["D", 1, 2, 1, 2], ["I", 1, 2, 1, 0], ["Drop", 0]], "battery": bat, "via": "parts"},
     ]
     evaluate(ctx, binpath, corpus, "corpus")
     # exhaustive small scope
     L = 3 if ctx.thorough else 2
     ex = []
     for hist in itertools.product(muts, repeat=L):
-        ex.append({"ops": list(hist), "battery": bat, "via_db": (len(ex) % 2 == 1)})
+        ex.append({"ops": list(hist), "battery": bat, "via": VIAS[len(ex) % 3]})
     ctx.sample({"ops": ex[len(ex) // 3]["ops"], "battery_size": len(bat)})
     evaluate(ctx, binpath, ex, "exhaustive_len%d" % L)
+    # every history over the operations that have a string-level entry point, through that entry point
+    # (each history of the stream above runs through only one of the three entry points)
+    sm = [m for m in muts if m[0] == "I" or (m[0] == "D" and m[4] == 0)] + [["Rebuild"]]
+    light = [["QGraph", g, None, None, None] for g in G] + \
+            [["QB", None, None, None, "eee"], ["QB", S[-1], None, O[0], "ene"], ["QBDec", None, P[0], None, "ese"],
+             ["QBCount", None, None, None, "eee"], ["AllQuads"], ["Graphs"], ["QNamed", None, None, None, None]]
+    exs = [{"ops": list(h), "battery": light, "via": "parts"} for h in itertools.product(sm, repeat=L)]
+    evaluate(ctx, binpath, exs, "exhaustive_string_level_len%d" % L)
     ctx.coverage["exhaustive"] = True
-    ctx.coverage["exhaustive_scope"] = "all %d^%d mutator histories of length %d, %d observers after every step" % (len(muts), L, L, len(bat))
+    ctx.coverage["exhaustive_scope"] = ("all %d^%d mutator histories of length %d, %d observers after every step (entry point index/db/parts "
+                                        "by position); all %d^%d histories of the string-level mutators + Rebuild through the string-level entry "
+                                        "points, %d observers after every step") % (len(muts), L, L, len(bat), len(sm), L, len(light))
     # random
     n = 2000 if ctx.thorough else 240
     rnd = []
     for i in range(n):
-        rnd.append({"ops": random_history(ctx.rng, 60 if ctx.thorough else 40), "battery": [], "via_db": i % 2 == 0})
+        rnd.append({"ops": random_history(ctx.rng, 60 if ctx.thorough else 40), "battery": [], "via": VIAS[i % 3]})
     ctx.sample({"ops": rnd[0]["ops"][:12]})
     evaluate(ctx, binpath, rnd, "random")
     ctx.finish(
         level="proof", rule=PROP_RULE,
         trusted_base=[
             "Coq 8.16.1 kernel; vm_compute for running the model in the correspondence check",
-            "hand-written Gallina model coq/Store/{Trie,Model}.v of shared/src/dataset_index.rs and SparqlDatabase::build_all_indexes",
+            "hand-written Gallina model coq/Store/{Trie,Model}.v of shared/src/dataset_index.rs, SparqlDatabase::build_all_indexes and QueryBuilder::apply_filters (string filters, get_triples/get_decoded_triples/count)",
             "correspondence check: harness/src/bin/c04.rs (public API only), checks/c04.py generators and canonicalisation",
+            "dictionary abstraction: terms are the strings t0..t9 encoded first in order (id i <-> \"t<i>\", asserted by the driver); Dictionary::encode/decode being a bijection is property C15, not re-proved here; on this universe exact / contains / starts-with / ends-with filters coincide",
             "HashMap/HashSet/BTreeSet modelled as association lists; u32 ids modelled as unbounded N",
         ],
         assumptions=["iteration order of hash maps is unobservable after sorting outputs",
+                     "string-level mutators (add_triple_parts, delete_triple_parts, add_quad_parts) are driven with terms that survive cleaning unchanged; add_triple_parts returns nothing, so its own result is not compared (its effect is, by every observer)",
+                     "QueryBuilder join / order_by / limit / offset / custom closures and the streaming mode are outside C04 (not lookup shapes of the store)",
                      "states deserialised from the pre-catalog on-disk format are outside the model (histories start from an empty store)"])
 
 
 def replay(ctx):
-    binpath = ctx.harness("c04")
+    binpath = driver(ctx)
     c = ctx.replay["case"]
-    case = {"ops": c["ops"][:-1] + [c["ops"][-1]], "battery": [c["observer"]] if c.get("observer") else [], "via_db": c.get("via_db", False)}
+    case = {"ops": c["ops"][:-1] + [c["ops"][-1]], "battery": [c["observer"]] if c.get("observer") else [],
+            "via": c.get("via") or ("db" if c.get("via_db") else "index")}
     evaluate(ctx, binpath, [case], "replay")
     ctx.finish(level="proof", rule=PROP_RULE)
